@@ -29,7 +29,7 @@ ASSUMPTIONS = [
     "the reference minimisers",
 ]
 REQUIRED = {"instances": 300, "eval.post": 5000}
-MIN_NONTRIVIAL = {"quick": 40, "thorough": 150}
+MIN_NONTRIVIAL = {"quick": 40, "thorough": 60}
 PLAN = [("unc", 100, 1500), ("box", 160, 2400), ("eq", 140, 2100),
         ("interval", 160, 2400), ("ball", 120, 1800),
         ("interval_tie", 60, 900)]
